@@ -4,6 +4,8 @@ import (
 	"context"
 	"errors"
 	"fmt"
+	"io"
+	"log/slog"
 	"math/rand/v2"
 	"net/http"
 	"net/http/httptest"
@@ -15,6 +17,7 @@ import (
 	jose "github.com/go-jose/go-jose/v4"
 	"golang.org/x/oauth2"
 
+	"github.com/zitadel/logging"
 	"github.com/zitadel/oidc/v3/pkg/client"
 	"github.com/zitadel/oidc/v3/pkg/client/profile"
 	"github.com/zitadel/oidc/v3/pkg/client/rp"
@@ -90,6 +93,10 @@ func res(v any, err error) result {
 	return result{err: err, nilValue: n, value: s}
 }
 
+func discardLogger() *slog.Logger {
+	return slog.New(slog.NewTextHandler(io.Discard, &slog.HandlerOptions{Level: slog.LevelDebug}))
+}
+
 func clientPEM() []byte { return clientKey().PKCS1PEM() }
 
 func keyFileJSON() []byte {
@@ -115,6 +122,10 @@ func (w *world) rpOptions() []rp.Option {
 	if w.r.IntN(4) == 0 {
 		opts = append(opts, rp.WithJWTProfile(rp.SignerFromKeyAndKeyID(clientPEM(), clientKid)))
 		w.v("signer")
+	}
+	if w.r.IntN(5) == 0 {
+		opts = append(opts, rp.WithLogger(discardLogger()))
+		w.v("logger")
 	}
 	switch w.r.IntN(5) {
 	case 0:
@@ -236,6 +247,10 @@ func targets() []target {
 				w.v("custom-url")
 				return res(client.Discover(w.ctx, w.issuer, w.hc, w.p.URL(fakeop.Discovery)))
 			}
+			if w.r.IntN(3) == 0 {
+				w.v("logger-in-context")
+				return res(client.Discover(logging.ToContext(w.ctx, discardLogger()), w.issuer, w.hc))
+			}
 			return res(client.Discover(w.ctx, w.issuer, w.hc))
 		}},
 		{name: "rp.NewRelyingPartyOIDC", endpoints: []string{fakeop.Discovery}, run: func(w *world, _ string) result {
@@ -341,7 +356,7 @@ func targets() []target {
 			if err != nil {
 				return result{prereqErr: err}
 			}
-			return res(rp.DeviceAccessToken(w.ctx, "dc-0123456789", 30*time.Millisecond, party))
+			return res(rp.DeviceAccessToken(w.ctx, "dc-0123456789", 50*time.Millisecond, party))
 		}},
 		{name: "rp.EndSession", endpoints: []string{fakeop.EndSession}, run: func(w *world, _ string) result {
 			party, err := w.newRP()
@@ -530,7 +545,7 @@ func targets() []target {
 		{name: "client.PollDeviceAccessTokenEndpoint", endpoints: []string{fakeop.Token}, run: func(w *world, _ string) result {
 			req := &client.DeviceAccessTokenRequest{ClientCredentialsRequest: &oidc.ClientCredentialsRequest{ClientID: clientID},
 				DeviceAccessTokenRequest: oidc.DeviceAccessTokenRequest{GrantType: oidc.GrantTypeDeviceCode, DeviceCode: "dc-0123456789"}}
-			return res(client.PollDeviceAccessTokenEndpoint(w.ctx, 30*time.Millisecond, req, w.caller()))
+			return res(client.PollDeviceAccessTokenEndpoint(w.ctx, 50*time.Millisecond, req, w.caller()))
 		}},
 		{name: "client.CallEndSessionEndpoint", endpoints: []string{fakeop.EndSession}, run: func(w *world, _ string) result {
 			req := oidc.EndSessionRequest{IdTokenHint: validIDToken(w.issuer), ClientID: clientID, PostLogoutRedirectURI: "https://rp.example/logged-out", State: "st"}
